@@ -55,8 +55,13 @@ struct W {
     fork_ctr: u64,
 }
 
+/// genesis period of the world being searched: 10 (nothing ages inside the bound) or 3 (on the
+/// 3-block chain the genesis outputs u1..u3 sit exactly on the window edge: admissible now,
+/// too old after one more block)
+static G: std::sync::atomic::AtomicU64 = std::sync::atomic::AtomicU64::new(10);
+
 fn init() -> Result<W, String> {
-    let mut p = Prod::new(10, 5000, 0)?;
+    let mut p = Prod::new(G.load(std::sync::atomic::Ordering::SeqCst), 5000, 0)?;
     // two blocks so that a reorg has something to undo
     for i in 0..2 {
         let ts = p.tip_ts + 10_000;
@@ -182,8 +187,10 @@ fn apply(w: &mut W, op: Op, rep: &mut Report, hist: &[Op]) -> bool {
                 Op::PeerSpendsU1 => vec![make_tx(&[w.u1.clone()], &[(key(3).public, w.u1.amount)], &key(1), 140, b"other")],
                 _ => vec![],
             };
-            // only meaningful while u1 is unspent on the chain
-            if op != Op::PeerEmpty && !w.p.ledger.utxo.contains(&w.u1.get_utxoset_key()) {
+            // only meaningful while u1 is unspent on the chain and still inside the window of the
+            // block the other producer is making
+            let g = w.p.cfg.consensus.genesis_period;
+            if op != Op::PeerEmpty && (!w.p.ledger.utxo.contains(&w.u1.get_utxoset_key()) || w.u1.block_id + g < w.p.tip_id + 1) {
                 return false;
             }
             w.fork_ctr += 1;
@@ -399,6 +406,10 @@ pub fn main(tier: Tier, _replay: Option<String>) -> i32 {
     rep.bounds = json!({"depth": depth, "alphabet": OPS.iter().map(|o| format!("{:?}", o)).collect::<Vec<_>>()});
     rep.rule = "breadth-first search over operation sequences (11-symbol alphabet) on the real pool and chain from a 3-block chain; a state is the history reaching it, deduplicated by the digest of the full observable state; invariants + destructive spendability probe in every state".into();
     rep.assumptions = vec!["u1,u2 are outputs of K1, u3 of K2; transaction A spends u1 (routed to the producer, fee 50,000), A' conflicts on u1, B spends u1+u2, C spends u3".into()];
+    let mut total_states = 0u64;
+    let mut all_distinct: BTreeSet<String> = BTreeSet::new();
+    for g in [10u64, 3] {
+    G.store(g, std::sync::atomic::Ordering::SeqCst);
     let mut seen: crate::audit::MergeAudit<Vec<Op>> = crate::audit::MergeAudit::new();
     let mut frontier: Vec<Vec<Op>> = vec![vec![]];
     {
@@ -443,15 +454,15 @@ pub fn main(tier: Tier, _replay: Option<String>) -> i32 {
                 }
             }
         }
-        rep.outcome_n(&format!("level-{}-new-states", level), next.len() as u64);
+        rep.outcome_n(&format!("g{}:level-{}-new-states", g, level), next.len() as u64);
         frontier = next;
     }
-    rep.states = seen.len() as u64;
-    rep.distinct = seen.rep_of.keys().map(|h| hex::encode(&h[0..8])).collect();
+    total_states += seen.len() as u64;
+    all_distinct.extend(seen.rep_of.keys().map(|h| hex::encode(&h[0..8])));
     // canonicalisation audit: merged histories must agree with their representative one step on
     {
         let quiet = Report::new("C14", tier.clone(), "model_checking");
-        seen.audit(if tier.thorough { 3000 } else { 400 }, "pool-bfs", |h: &Vec<Op>| {
+        seen.audit(if tier.thorough { 3000 } else { 400 }, &format!("pool-bfs-g{}", g), |h: &Vec<Op>| {
             OPS.iter()
                 .map(|op| {
                     let mut x = h.clone();
@@ -466,6 +477,9 @@ pub fn main(tier: Tier, _replay: Option<String>) -> i32 {
                 .collect()
         }, &mut rep);
     }
+    }
+    rep.states = total_states;
+    rep.distinct = all_distinct;
     rep.sample(json!({"history": ["SubmitB2", "PeerSpendsU1", "Bundle"]}));
     rep.required_outcomes = vec!["bundled".into(), "no-bundle".into(), "reorg".into(), "own-block-failed".into()];
     let _ = VecDeque::<u8>::new();
